@@ -76,11 +76,11 @@ class _FieldOfDressed:
 
             dressed_new._movable = False
 
-            # Copy the python data (changes also dressed_new._xobject)
-            dressed_new.__dict__.update(value.__dict__)
-
-            # Restore correct _xobject
-            dressed_new._xobject = getattr(container._xobject, self.name)
+            # Copy the pure python data (not the _xobject and the dressed
+            # nested parts, which belong to the newly made copy)
+            for kk, vv in value.__dict__.items():
+                if kk not in dressed_new.__dict__:
+                    dressed_new.__dict__[kk] = vv
         else:
             self.content = None
             setattr(container._xobject, self.name, value)
